@@ -22,9 +22,10 @@ def path_uri(path):
 
 
 class Server:
-    def __init__(self, root, binary=None, stderr_path=None, init_timeout=60.0):
+    def __init__(self, root, binary=None, stderr_path=None, init_timeout=60.0, init_params=None):
         self.binary = binary or core.REPO_BIN
         self.root = root
+        self.init_params = init_params
         self.stderr_path = stderr_path or os.path.join(root + ".stderr")
         self.errf = open(self.stderr_path, "wb")
         self.p = subprocess.Popen([self.binary, "--stdio"], stdin=subprocess.PIPE, stdout=subprocess.PIPE,
@@ -89,7 +90,10 @@ class Server:
 
     # ---- protocol
     def _initialize(self, timeout):
-        self.request("init", "initialize", {"processId": None, "rootUri": path_uri(self.root), "capabilities": {}})
+        params = {"processId": None, "rootUri": path_uri(self.root), "capabilities": {}}
+        if self.init_params is not None:
+            params.update(self.init_params)       # e.g. {"rootUri": None, "workspaceFolders": []}
+        self.request("init", "initialize", params)
         r = self.wait_for(["init"], timeout)
         if "init" not in r:
             return False
